@@ -1443,6 +1443,13 @@ func (cx *Ctx) checkDeferredErrOverwrite(r *Report, rule, key string, fn *ssa.Fu
 						continue
 					}
 					okStore := isFreshError(st.Val)
+					if jc, isC := st.Val.(*ssa.Call); isC && !okStore && calleeName(jc) == "errors.Join" {
+						// err = errors.Join(err, cerr): what was an error stays one
+						okStore = joinedSome(jc, func(v ssa.Value) bool {
+							u, isU := v.(*ssa.UnOp)
+							return isU && u.Op == token.MUL && u.X == ssa.Value(fv)
+						})
+					}
 					if !okStore {
 						oldP := []string{deref(fx.path(st.Addr)), strings.TrimPrefix(fx.path(st.Addr), "&")}
 						vp := fx.path(st.Val)
